@@ -120,8 +120,9 @@ func (s *Scheduler) hook(try func() bool, site string) {
 // Run installs the hook, drives all tasks to completion and removes the hook.
 // It returns the panics of tasks (as strings).
 func (s *Scheduler) Run() []any {
+	prev := verifrt.Hook
 	verifrt.Hook = s.hook
-	defer func() { verifrt.Hook = nil }()
+	defer func() { verifrt.Hook = prev }()
 	for {
 		synctest.Wait()
 		s.mu.Lock()
